@@ -36,7 +36,7 @@ def plan(prop, tier):
     if prop == 'C10':
         p += [(2, True, 24, 6)]
     if prop == 'C06':
-        p = [(2, True, 26, 6), (3, True, 34, 8)]
+        p = [(2, True, 20, 6), (2, True, 26, 6), (3, True, 34, 8)]      # (E = 1 decided at K = 20; E = 2 at K = 26 and n = 3 are attempts under a budget)
     return p
 
 
@@ -58,7 +58,7 @@ def run(prop, tier, seed, repo, jobs):
                 # quick tier, watch mode: the restart obligations (single instance across restarts) take minutes per case and stay in the
                 # thorough tier; what is decided here is that a rebuild never starts while a service it depends on is down
                 only = ('dependency_services_are_running_when_a_build_starts',)
-            emax = 1 if (prop == 'C06' and (tier == 'quick' or n >= 3)) else 2     # bound E on file-change notifications per run
+            emax = 1 if (prop == 'C06' and not (n == 2 and K >= 26)) else 2     # bound E on file-change notifications per run
             cases.append((prop, kinds, watch, K, qcap, seed, True, 300 if tier == 'quick' else (600 if n >= 3 else 1200), repo, tier, None if tier == 'quick' else (900 if n >= 3 else 2400), None, only, emax))
     if prop in ('C11', 'C20'):
         # one fixed three-target graph: an aggregate (the only root) over a build and a service -- the smallest graph in which
@@ -119,7 +119,7 @@ def run(prop, tier, seed, repo, jobs):
                     samples.append({'case': tag, 'obligation': q['name'], 'verdict': 'unsat', 'solver_s': q['solver_s'], 'K': res['K']})
                 continue
             if q['verdict'] != 'sat':
-                if len(res['kinds']) >= 3:
+                if len(res['kinds']) >= 3 or (prop == 'C06' and res.get('max_notifications', 0) >= 2):
                     # the larger bound is an attempt: a timeout there leaves that obligation undecided (recorded), the claim stays at n = 2
                     undecided.append({'case': tag, 'obligation': q['name'], 'verdict': q['verdict'], 'solver_s': q['solver_s']})
                     continue
@@ -481,7 +481,7 @@ def run(prop, tier, seed, repo, jobs):
         'explanation': 'symbolic bounded model checking: "states" = state variables x unrolled steps summed over cases (each symbolic state stands for all concrete states), "transitions" = encoded alternatives x steps',
         'obligations': nq, 'discharged': nunsat, 'solver_time_s': round(solver_s, 1),
         'functions_encoded': sorted(fns), 'cases': len(results),
-        'bounds': [{'n_targets': n, 'watch': w, 'K_steps': K, 'inbox_capacity_model': q, 'max_notifications': 2 if w else 0} for (n, w, K, q) in plan(prop, tier)],
+        'bounds': [{'n_targets': n, 'watch': w, 'K_steps': K, 'inbox_capacity_model': q, 'max_notifications': ((1 if (prop == 'C06' and not (n == 2 and K >= 26)) else 2) if w else 0)} for (n, w, K, q) in plan(prop, tier)],
         'outside_claim': ['graphs with more targets than the bound', 'schedules longer than K (K is checked sufficient for quiescence where stated)',
                           'blocking on full channels (capacity 64 is never reached within the bound; see DESIGN F2)', 'real OS scheduling / process groups'],
         'pinned_cases': [{'kinds': r['kinds'], 'graph': r['pinned'], 'K_steps': r['K']} for r in results if r.get('pinned')],
